@@ -221,6 +221,16 @@ func csvKindOf(cell string) octosql.TypeID {
 	return octosql.TypeIDString
 }
 
+// csvUnrepresentable: the column type has no value for the cell: an empty cell where NULL is not admitted, or a text whose
+// kind (as the inference reads it) is not admitted and that cannot be kept as a String either.
+func csvUnrepresentable(t octosql.Type, cell string) bool {
+	if cell == "" {
+		return !model.Admits(t, octosql.TypeIDNull)
+	}
+	k := csvKindOf(cell)
+	return !model.Admits(t, k) && !(k == octosql.TypeIDInt && model.Admits(t, octosql.TypeIDFloat)) && !model.Admits(t, octosql.TypeIDString)
+}
+
 // parsersDisagree: strconv (inference) and fastfloat (execution) read the cell differently as an integer or as a float.
 func parsersDisagree(cell string) bool {
 	i1, e1 := strconv.ParseInt(cell, 10, 64)
@@ -369,8 +379,7 @@ func (r *c24) csvProp(c CSVCase) ev.Outcome {
 		// an error is the demanded outcome for a row the schema cannot represent; on a file where every cell is representable it is wrong
 		for i := 0; i < c.rows(); i++ {
 			for j, cell := range c.row(i) {
-				k := csvKindOf(cell)
-				if !model.Admits(o.Fields[j].Type, k) && !(k == octosql.TypeIDInt && model.Admits(o.Fields[j].Type, octosql.TypeIDFloat)) && !model.Admits(o.Fields[j].Type, octosql.TypeIDString) {
+				if csvUnrepresentable(o.Fields[j].Type, cell) {
 					return ev.Outcome{NonTrivial: nonTrivial, Classes: append(classes, "csv:unrepresentable_row_reported_as_error")}
 				}
 			}
@@ -665,6 +674,6 @@ func TestC24(t *testing.T) {
 		"strconv's ±Inf with a range error (1e400) counts as the float the text denotes",
 		"files in which a non-empty array meets a list type inferred from empty arrays only (`[]`, no element type) are discarded before running: the JSON worker goroutine panics on them (nil dereference), which would kill the test process; reported separately")
 	r := &c24{rec: rec}
-	ev.Check(t, rec, "csv_schema", ev.N(6000, 120000), genCSVCase, r.csvProp)
-	ev.Check(t, rec, "json_schema", ev.N(5000, 100000), genJSONCase, r.jsonProp)
+	ev.Check(t, rec, "csv_schema", ev.N(10000, 200000), genCSVCase, r.csvProp)
+	ev.Check(t, rec, "json_schema", ev.N(10000, 200000), genJSONCase, r.jsonProp)
 }
